@@ -143,13 +143,13 @@ NOT_YET = {}
 ADDED = {
     "C01": "Also: every tz-database name as TIMEZONE for epoch numbers; wall times in DST gaps / folds under TIMEZONE; complete dates on the reference date / on today's date under every PREFER_DATES_FROM. Round 6: process histories of neighbouring calls (other clock spellings, zone-bearing strings, relative phrases, failing strings, other languages). Round 7: coincidences between the fields of one string (fraction = year / month-day / clock ...).",
     "C02": "Also: near-miss invalid values; every settings key x value of every type class and 2-3-entry dicts judged by Validate.tla (P_Validate laws); live-parser / look-alike-settings mini-histories; strings shaped for each parser's entry regex with look-alike signs, colons, digits and case-folding look-alike letters; refinement of the parser loop (Pipeline.tla) on every probed call. Round 6: strings rendered from generated formats (so that they match, %z / %Z included), every kind of TIMEZONE / TO_TIMEZONE value the library resolves; the other arguments (languages, locales, region, booleans, date string, formats) with values of every type class, judged by Validate.tla ArgsVerdict. Round 7: zone near-miss words in the string generator.",
-    "C03": "Also: settings-neighbour, locale-sibling (any load order), locale-switch, region=, caller-held-object (detection callback, list edited in place) histories. Round 7: language lists with a repeated code, every distinct call under several interpreter hash seeds.",
+    "C03": "Also: settings-neighbour, locale-sibling (any load order), locale-switch, region=, caller-held-object (detection callback, list edited in place) histories. Round 7: language lists with a repeated code, every distinct call under several interpreter hash seeds. Round 9: settings dicts the caller keeps, edits in place and passes again, followed by fresh equal dicts from another caller.",
     "C04": "Also: range ends; several units with a clock time; seconds and fractions in clock times; a third of the cases on parsers all built before use; implicit now with the library's clock moved to clamping days. Round 6: process histories with equal settings (one RELATIVE_BASE object per value and process). Round 7: decimal counts inside multi-unit phrases; Periods.tla (get_intersecting_periods / date_range) bound here as a refinement.",
     "C05": "Also: vocabulary taken from pristine data with a model-side overlay; regional locales loaded first in fresh processes; search_dates reaching a language first under the same settings; domain = the name as listed (normalisation collisions are findings). Round 6: the listed name's look-alikes (accents removed, other case) on the same parser right before the name.",
     "C06": "Also: wide counts (year-like, day-like, leading zero); the same phrase again under the other NORMALIZE value. Round 6: decimal counts with short and long fractions in both tiers.",
     "C07": "Also: failing calls interleaved; pre-built parsers incl. settings with equal effective values and different explicit keys; weekday words next to numeric dates. Round 6: every written form of the time suffix (ISO T, fraction, Z, numeric offsets); year-last dates whose year spells a UTC offset are judged (known finding). Round 7: the parser used through a pickled / copied copy (fresh interpreters). Round 8: the character scanner in front of the token machine (CharTokens.tla: the loop of parser.py's tokenizer and the token lists of _parser.__init__, 32 k states quick / 2.6 M thorough) is no longer trusted: ~5.5 k strings (exhaustive short strings, class pairs, date fragments, the strings that really reach the scanner in 200+ languages) go through the real scanner and constructor and TLC (T_CharTokens) compares every list; the trusted token projection now rests on a specified scanner.",
     "C08": "Also: decoy formats around the format under test; explicit / locale / region date orders for named-month dates; timezone-aware references near midnight; custom-format cases with the library's clock on days 28-31. Round 6: bystander settings (a REQUIRE_PARTS the string meets, defaults spelled out). Round 7: settings as Settings objects (one and two replace steps) or a dict emptied after construction.",
-    "C09": "Also: zones with daylight saving around their transitions (time of day preserved); no RELATIVE_BASE with the live clock bracketed in workers far from UTC. Round 6: clock times that carry their own zone under every TIMEZONE. Round 7: timezone-aware references (calendar-field forms, and clock times under the reference's own DST zone: repaired by 990bda8); a parser for the same instant in another zone built next to each of them.",
+    "C09": "Also: zones with daylight saving around their transitions (time of day preserved); no RELATIVE_BASE with the live clock bracketed in workers far from UTC. Round 6: clock times that carry their own zone under every TIMEZONE. Round 7: timezone-aware references (calendar-field forms, and clock times under the reference's own DST zone: repaired by 990bda8); a parser for the same instant in another zone built next to each of them. Round 9: day + month WITH a clock time (form daymonthtime: oracle, E1 model, replay with times earlier / equal / later than the reference's on its own day).",
     "C10": "Also: every preference next to strictness; timezone-aware references of two offsets with results observed as instants. Round 6: fully stated four-digit-year dates in every order of writing x reading x preference; strings with two date tokens under every order (known finding). Round 8: STRICT_PARSING switched on next to every REQUIRE_PARTS subset in ONE call (two more runs per input, two reference times): still only filters, still clock-free, still states every part (T_C10 clauses, outSR = outS in P_C10).",
     "C11": "Also: month-name bodies; the numeric spelling after the bare abbreviation in the same process; clock-time-only bodies with a zone under every preference. Round 6: English selected but not first among the languages; bodies in other space-separated languages with autodetection.",
     "C12": "Also: every (zone, own tzname also listed by the library) pair; a sample re-run in workers whose zone is far from UTC; timezone-aware reference times for relative phrases. Round 6: settings given as a Settings object / as a dict emptied after construction; relative phrases that move the reference across DST changes. Round 7: histories whose reference is the same instant written in another zone.",
